@@ -250,7 +250,8 @@ pub fn prefill(quick: bool) -> Vec<Scenario> {
                 vec![Req::Cancel(2)],
             ],
         )
-        .prefill(0, 1),
+        .prefill(0, 1)
+        .depth(if quick { 10 } else { 0 }),
     );
     // request variants of different size with pre-sending: a pre-sent task is called back and
     // re-placed on the same worker with another variant while the worker starts it from its backlog
@@ -264,7 +265,8 @@ pub fn prefill(quick: bool) -> Vec<Scenario> {
                 vec![sub(arr(&[0], 2))],
             ],
         )
-        .prefill(0, 3),
+        .prefill(0, 3)
+        .depth(if quick { 12 } else { 0 }),
     );
     if !quick {
         v.push(
@@ -518,6 +520,17 @@ pub fn maxfails(quick: bool) -> Vec<Scenario> {
             "maxfails-0-crashlimit-same-worker",
             vec![w(2)],
             vec![vec![sub(arr(&[0, 1], 1).max_fails(0).crash_limit("1"))]],
+        )
+        .budgets(1, 0, 0, 1),
+        // three tasks of two jobs running on the worker that is lost: the failure of the first trips
+        // max-fails of its job and removes the second, the third (other job) is at its crash limit too
+        Scenario::new(
+            "maxfails-0-crashlimit-3-running",
+            vec![w(3)],
+            vec![
+                vec![sub(arr(&[0, 1], 1).max_fails(0).crash_limit("1"))],
+                vec![sub(arr(&[0], 1).crash_limit("1"))],
+            ],
         )
         .budgets(1, 0, 0, 1),
         // max-fails trips while a pre-sent task of the job is being retracted without a new target
